@@ -94,6 +94,41 @@ func init() {
 	})
 }
 
+// c24StormImage: IE = a drawn mask with at least two sources, STAT sources and LYC drawn, a fast timer, and a
+// main loop of EI / HALT / requests raised by software; each handler sends its own letter to the serial port.
+func c24StormImage(rt *rapid.T) *c11Spec {
+	s := &c11Spec{CartType: rapid.SampledFrom([]uint8{0x00, 0x01, 0x13, 0x1b}).Draw(rt, "type"), RomSize: 0, RamSize: 2, Len: -1, Far: true}
+	s.Head = make([]byte, 0x68)
+	for i, v := range []int{0x40, 0x48, 0x50, 0x58, 0x60} {
+		copy(s.Head[v:], []byte{0x3e, byte('V' + i), 0xe0, 0x01, rapid.SampledFrom([]byte{0xd9, 0xd9, 0xc9}).Draw(rt, "ret")})
+	}
+	ie := rapid.SampledFrom([]byte{0x03, 0x07, 0x1f, 0x06, 0x05, 0x0f, 0x13}).Draw(rt, "ie")
+	stat := rapid.SampledFrom([]byte{0x10, 0x18, 0x28, 0x40, 0x78, 0x50}).Draw(rt, "stat")
+	p := []byte{0x3e, stat, 0xe0, 0x41, 0x3e, byte(rapid.IntRange(0, 153).Draw(rt, "lyc")), 0xe0, 0x45,
+		0x3e, byte(rapid.IntRange(0xf0, 0xff).Draw(rt, "tma")), 0xe0, 0x06, 0x3e, rapid.SampledFrom([]byte{0x05, 0x06, 0x07, 0x04}).Draw(rt, "tac"), 0xe0, 0x07,
+		0x3e, ie, 0xe0, 0xff}
+	loop := len(p)
+	n := rapid.IntRange(1, 6).Draw(rt, "body")
+	for i := 0; i < n; i++ {
+		switch rapid.IntRange(0, 4).Draw(rt, "k") {
+		case 0:
+			p = append(p, 0x3e, rapid.Byte().Draw(rt, "if")&0x1f, 0xe0, 0x0f) // raise several requests at once
+		case 1:
+			p = append(p, 0xfb, 0x76)
+		case 2:
+			p = append(p, 0xfb, 0x00, 0x00)
+		case 3:
+			p = append(p, 0xf3, 0x3e, rapid.Byte().Draw(rt, "if2")&0x1f, 0xe0, 0x0f, 0xfb)
+		default:
+			p = append(p, 0x04, 0x78, 0xe0, 0x01) // INC B; LD A,B; LDH (01),A
+		}
+	}
+	back := len(p) + 2 - loop
+	p = append(p, 0x18, byte(0x100-back))
+	s.Program = p
+	return s
+}
+
 func c24GenInputs(rt *rapid.T, frames int) []sysInput {
 	return rapid.SliceOfN(rapid.Custom(func(rt *rapid.T) sysInput {
 		return sysInput{Frame: rapid.IntRange(0, frames-1).Draw(rt, "f"), Button: rapid.IntRange(0, 7).Draw(rt, "b"), Press: rapid.Bool().Draw(rt, "p")}
@@ -130,6 +165,19 @@ func TestC24(t *testing.T) {
 			}
 		}
 		c.Bulk("corpus", n, n)
+	})
+
+	// interrupt storms: every source enabled, several requests pending at the same boundary, handlers that
+	// log to the serial port - the order in which simultaneous requests are served must repeat exactly
+	c.Rapid("irq-storm", 160, 3200, func(rt *rapid.T) {
+		cas := sysCase{Image: c24StormImage(rt), Video: rapid.Bool().Draw(rt, "video"), Audio: rapid.IntRange(0, 3).Draw(rt, "audio") == 0, Frames: rapid.IntRange(3, c.Env.Pick(30, 120)).Draw(rt, "frames")}
+		info, sig, err := c24Run(cas, true)
+		c.Case("irq-storm", vf.Hash(cas), info.Frames >= 3 && info.Serial, func() interface{} { return cas })
+		if err != nil {
+			if !c.Fail("determinism", sig, err.Error(), cas) {
+				rt.Fatalf("%v", err)
+			}
+		}
 	})
 
 	c.Rapid("cases", 640, 6400, func(rt *rapid.T) {
